@@ -226,6 +226,12 @@ func Run(args []string) *rep.Report {
 	srvs := map[bool]*httptest.Server{true: httptest.NewServer(handler(true)), false: httptest.NewServer(handler(false))}
 	defer srvs[true].Close()
 	defer srvs[false].Close()
+	// the same handlers behind middleware whose ResponseWriter cannot flush (http.TimeoutHandler buffers the response): what
+	// is negotiated and written must not depend on it
+	tsrvs := map[bool]*httptest.Server{true: httptest.NewServer(http.TimeoutHandler(handler(true), 30*time.Second, "timeout")),
+		false: httptest.NewServer(http.TimeoutHandler(handler(false), 30*time.Second, "timeout"))}
+	defer tsrvs[true].Close()
+	defer tsrvs[false].Close()
 	idx, clientFinds := 0, 0
 	bad := func(key string, tc *tcase, detail string) {
 		r.Diverge(rep.Divergence{Key: key, Case: tc, Detail: detail})
@@ -249,7 +255,11 @@ func Run(args []string) *rep.Report {
 		if idx%4999 == 0 {
 			r.Sample(tc)
 		}
-		req, _ := http.NewRequest("GET", srvs[tc.Prefer].URL+pathFor(tc.Pk), nil)
+		base := srvs[tc.Prefer].URL
+		if idx%3 == 0 {
+			base = tsrvs[tc.Prefer].URL // every third case: through the writer that cannot flush
+		}
+		req, _ := http.NewRequest("GET", base+pathFor(tc.Pk), nil)
 		for _, h := range tc.Hs {
 			var vals []string
 			for _, t := range h {
@@ -261,7 +271,7 @@ func Run(args []string) *rep.Report {
 		var err error
 		if tc.Pk == "empty-path" || tc.Pk == "double-slash" {
 			// written to the wire by hand: net/http's client would send "/" for an empty path and might clean the doubled slash
-			resp, err = rawGet(srvs[tc.Prefer].URL, pathFor(tc.Pk), req.Header)
+			resp, err = rawGet(base, pathFor(tc.Pk), req.Header)
 			if err != nil {
 				if handlerPanic != "" || strings.Contains(err.Error(), "EOF") {
 					bad("panic", tc, fmt.Sprintf("no response to a request with %s (%v); handler panic: %q", tc.Pk, err, handlerPanic))
@@ -351,6 +361,31 @@ func Run(args []string) *rep.Report {
 							r.Diverge(rep.Divergence{Key: "client-results", Detail: fmt.Sprintf("result %d of %d differs or is out of order", i, n)})
 						}
 					}
+				}
+			}
+		}
+	}
+	// a large result set (a response of about 2.5 MiB) through the real writer and the real client
+	if cl != nil && si == 0 {
+		curResults = nil
+		for i := 0; i < 3000; i++ {
+			pr := results(1, i)[0]
+			pr.Metadata = append(bytes.Repeat([]byte{byte(i)}, 509), byte(i>>8), byte(i), 0x7f)
+			curResults = append(curResults, pr)
+		}
+		want := curResults
+		fr, err := cl.Find(context.Background(), theMh())
+		clientFinds++
+		switch {
+		case err != nil:
+			r.Diverge(rep.Divergence{Key: "client-error", Detail: fmt.Sprintf("3000 results with 512-byte metadata: %v", err)})
+		case len(fr.MultihashResults) != 1 || len(fr.MultihashResults[0].ProviderResults) != len(want):
+			r.Diverge(rep.Divergence{Key: "client-results", Detail: "3000 results written, the client got another number"})
+		default:
+			for i, pr := range fr.MultihashResults[0].ProviderResults {
+				if !sameResult(pr, want[i]) {
+					r.Diverge(rep.Divergence{Key: "client-results", Detail: fmt.Sprintf("result %d of 3000 differs or is out of order", i)})
+					break
 				}
 			}
 		}
